@@ -390,6 +390,7 @@ type cliTag struct {
 }
 
 type cliRun struct {
+	preface    []byte // the 24 bytes the client opened with
 	sc         *cliScenario
 	conn       *http2.Conn
 	cc         *cliConn
@@ -454,6 +455,9 @@ func startClientRun(sc *cliScenario) *cliRun {
 		if _, err := io.ReadFull(r.c2, pre); err != nil {
 			return
 		}
+		r.peer.mu.Lock()
+		r.preface = pre
+		r.peer.mu.Unlock()
 		go r.peer.readLoop()
 		f := newFrame('S', 0, 0)
 		f.settings = sc.settings
@@ -491,17 +495,20 @@ func startClientRun(sc *cliScenario) *cliRun {
 }
 
 func (r *cliRun) handshakeView() string {
+	// the preface and the two frames of the handshake, byte for byte as the scripted server read them
+	// (Impl/ClientSetup.v: cli_preface, cli_handshake_frames)
 	r.peer.mu.Lock()
 	defer r.peer.mu.Unlock()
 	if len(r.peer.frames) < 2 {
 		return "hs:?"
 	}
-	f0, f1 := r.peer.frames[0], r.peer.frames[1]
-	inc := uint32(0)
-	if len(f1.payload) == 4 {
-		inc = binary.BigEndian.Uint32(f1.payload)
+	var raw []byte
+	for _, f := range r.peer.frames[:2] {
+		n := len(f.payload)
+		raw = append(raw, byte(n>>16), byte(n>>8), byte(n), f.kind, f.flags, byte(f.sid>>24), byte(f.sid>>16), byte(f.sid>>8), byte(f.sid))
+		raw = append(raw, f.payload...)
 	}
-	return fmt.Sprintf("hs:%d:%s:%d:%d", f0.kind, hx(f0.payload), f1.kind, inc)
+	return "hs:" + hx(r.preface) + ":" + hx(raw)
 }
 
 // ledgerSettings applies a SETTINGS frame the server sends to its own ledger.
